@@ -247,3 +247,85 @@ Lemma hypotheses_exclude_lemma :
 Proof.
   exact (conj w_rename_unsafe (conj w_check_moved_unsafe (conj w_connect_not_okq w_csn_connect_not_okq))).
 Qed.
+
+(* ---------- audit round: the exported strength ---------- *)
+Lemma never_missed_plain_lemma hi s i c q :
+  Reach hi s -> hi < i -> plainq q -> res q (apply i c s) <> res q s ->
+  i <= idx q (apply i c s) /\ idx q s < idx q (apply i c s) /\ fires (ws q s) (touched i c s) = true.
+Proof.
+  intros HR Hlt Hq Hc. pose proof (highwater_plain hi s i c q HR Hlt Hq Hc) as Hi.
+  pose proof (idx_bounded hi s q HR (plainq_okq q Hq)) as Hb.
+  split; [exact Hi|]. split; [lia|]. exact (fires_plain hi s i c q HR Hlt Hq Hc).
+Qed.
+
+(* the new index is above the index ANY state reached no later than s reported (high-water mark) *)
+Lemma above_every_earlier_lemma hi0 s0 hi s i c q :
+  Reach hi0 s0 -> hi0 <= hi -> Reach hi s -> Coherent s -> hi < i -> safe_cmd c s -> safe_query q ->
+  res q (apply i c s) <> res q s -> idx q s0 < idx q (apply i c s).
+Proof.
+  intros HR0 Hle HR HC Hlt Hs Hq Hc.
+  pose proof (highwater_okq hi s i c q HR HC Hlt Hs Hq Hc). pose proof (idx_bounded hi0 s0 q HR0 Hq). lia.
+Qed.
+Lemma above_every_earlier_plain_lemma hi0 s0 hi s i c q :
+  Reach hi0 s0 -> hi0 <= hi -> Reach hi s -> hi < i -> plainq q ->
+  res q (apply i c s) <> res q s -> idx q s0 < idx q (apply i c s).
+Proof.
+  intros HR0 Hle HR Hlt Hq Hc.
+  pose proof (highwater_plain hi s i c q HR Hlt Hq Hc). pose proof (idx_bounded hi0 s0 q HR0 (plainq_okq q Hq)). lia.
+Qed.
+
+(* the wake of the blocked round is the model's [fires], not a scripted constant *)
+Definition wake_of (b : bool) : wake := if b then Fired else Timeout.
+Lemma wakes_derived_lemma hi s i c q :
+  Reach hi s -> Coherent s -> hi < i -> 1 < i -> safe_cmd c s -> safe_query q ->
+  res q (apply i c s) <> res q s ->
+  forall w rest,
+    loop (LS (reported q s) false false)
+         ((idx q s, ENone, wake_of (fires (ws q s) (touched i c s))) :: (idx q (apply i c s), ENone, w) :: rest)
+    = XIndex (reported q (apply i c s)).
+Proof.
+  intros HR HC Hlt H1 Hs Hq Hc w rest.
+  destruct (wakes_lemma hi s i c q HR HC Hlt H1 Hs Hq Hc) as (Hf & _ & Hl). rewrite Hf. apply Hl.
+Qed.
+(* and a watch that does not fire leaves the query blocked until its timeout, with the stale index:
+   the shape of every "missed wake" the oracle reports *)
+Lemma no_fire_times_out_lemma q s rest :
+  loop (LS (reported q s) false false) ((idx q s, ENone, wake_of false) :: rest) = XTimeout (reported q s).
+Proof. unfold reported. cbn. rewrite bool_decide_eq_false_2 by lia. reflexivity. Qed.
+
+(* every exit of the loop is reachable; the last one is the audit's example: two not-found rounds
+   replace the requested minimum 10 by 5, and 7 is returned *)
+Lemma loop_exits_reachable :
+  blocking_query 10 [(10, ENone, Fired); (12, ENone, Timeout)] = XIndex 12 /\
+  blocking_query 10 [(10, ENone, Timeout)] = XTimeout 10 /\
+  blocking_query 10 [(10, ENone, Abandoned)] = XAbandon 10 /\
+  blocking_query 0 [(0, ENone, Timeout)] = XNonBlocking 1 /\
+  blocking_query 10 [(3, ENotFound, Fired); (5, ENotFound, Fired); (7, ENone, Timeout)] = XIndex 7.
+Proof. repeat split; vm_compute; reflexivity. Qed.
+
+(* non-vacuity with a registration that meets svc_safe / chk_safe / NoDup on EXISTING rows: the
+   service update case (same id and name, new port; its check re-registered with another status) *)
+Definition ex_update : cmd :=
+  Register "n1" 1 (Some (SvcSpec "s1" "web" false "" false [] 81)) [ChkSpec "c2" 1 "s1" 1; ChkSpec "serfHealth" 0 "" 0].
+Lemma ex_update_safe : safe_cmd ex_update ex_state.
+Proof.
+  remember ex_state as s eqn:Es.
+  assert (Hsv : services s !! ("n1", "s1") = Some (Svc "web" false "" false [] 80 2 2)) by (rewrite Es; vm_compute; reflexivity).
+  assert (Hc2 : checks s !! ("n1", "c2") = Some (Chk 0 "s1" "web" [] 0 2 2)) by (rewrite Es; vm_compute; reflexivity).
+  assert (Hsh : exists x, checks s !! ("n1", "serfHealth") = Some x /\ c_svc x = "")
+    by (rewrite Es; eexists; split; [vm_compute; reflexivity|reflexivity]).
+  assert (HC : Coherent s) by (rewrite Es; exact ex_coherent).
+  clear Es. cbn [safe_cmd ex_update]. split; [|split].
+  - split.
+    + intros o Ho. cbn [sp_id sp_name] in *. rewrite Hsv in Ho. injection Ho as <-. reflexivity.
+    + intros cid c Hc Hid. cbn [sp_id sp_name] in *.
+      assert (Hne : c_svc c <> "") by (rewrite Hid; discriminate).
+      assert (Hsv' : services s !! ("n1", c_svc c) = Some (Svc "web" false "" false [] 80 2 2)) by (rewrite Hid; exact Hsv).
+      pose proof (HC "n1" cid c _ Hc Hne Hsv') as H. symmetry. exact H.
+  - cbn. repeat constructor; set_solver.
+  - repeat constructor; unfold chk_safe; cbn [cs_id cs_svc]; intros o Ho.
+    + rewrite Hc2 in Ho. injection Ho as <-. reflexivity.
+    + destruct Hsh as (x & Hx & Hs0). rewrite Hx in Ho. injection Ho as <-. exact Hs0.
+Qed.
+Lemma ex_update_changes : res (QCSN "web") (apply 9 ex_update ex_state) <> res (QCSN "web") ex_state.
+Proof. apply neq_compute. vm_compute. reflexivity. Qed.
